@@ -1,7 +1,9 @@
 //! C07: counts heap traffic (alloc / realloc / dealloc) of the allocation-free API surface.
 //! Input line: `list`  -> scenario names, space separated
-//!             `<scenario> <K> <seed>` -> `<allocs> <reallocs> <deallocs> <extra...>` measured over K
-//!             further calls AFTER construction and one warm-up call.
+//!             `<scenario> <K> <seed> [<family>]` -> `<allocs> <reallocs> <deallocs> <extra...>` measured over K
+//!             further calls AFTER construction and one warm-up call; `family` (0..4, default 0) selects the value
+//!             family the scenario's inputs are drawn from (see `struct R`); the extras of the scenarios aimed at
+//!             one data-dependent branch count how often that branch was demonstrably taken.
 //!             `caps <G|S> <cap0> ; op , op , ...` -> capacity trace of ONE `Processor::with_capacity(cap0)`
 //!             over a graph of stock `Pass` nodes built and processed by the script (G = petgraph::Graph,
 //!             S = StableGraph): `N` add a node, `E a b` add an edge, `R a` remove node a (S only),
@@ -177,7 +179,7 @@ const NAMES: &[&str] = &[
     "bus_drop_caught_up", "bus_drop_laggard", "bus_reattach", "graph_fan_in_1500", "graph_chain_1500", "graph_alternating_outputs",
     "graph_node_shapes",
     // round 3: inputs designed per data-dependent branch, entry points the coverage report listed as never reached
-    "rms_clamp", "rms_clamp_adaptors", "env_attack_release", "conv_ratio_steps", "conv_exhaustion", "sinc_priming", "clip_both_sides", "bounded_full_wrap", "bus_catch_up", "bus_finite_source", "windower_edges", "graph_node_edge_cases", "osc_shapes", "exhaustion_queries", "consume_parts", "fork_rc_schedules", "slice_all_forms", "frame_iters_mono", "sample_all_formats", "custom_int_types", "debug_fmt", "boxed_slice_forms",
+    "rms_clamp", "rms_clamp_adaptors", "env_attack_release", "conv_ratio_steps", "conv_exhaustion", "sinc_priming", "clip_both_sides", "bounded_full_wrap", "bus_catch_up", "bus_finite_source", "windower_edges", "graph_node_edge_cases", "osc_shapes", "exhaustion_queries", "consume_parts", "fork_rc_schedules", "slice_all_forms", "frame_iters_mono", "sample_all_formats", "custom_int_types", "debug_fmt", "boxed_slice_forms", "size_sweep",
 ];
 
 fn run(name: &str, k: usize, seed: u64, fam: u8) -> Vec<i64> {
@@ -1878,6 +1880,83 @@ fn run(name: &str, k: usize, seed: u64, fam: u8) -> Vec<i64> {
             });
             v.push(w.n as i64);
             v
+        }
+        "size_sweep" => {
+            // the stateful objects over heap-backed storage (made before the measured part) of many sizes, 1 .. 65537 and
+            // around the powers of two in between: no size threshold in that range goes unvisited
+            use dasp_interpolate::Interpolator;
+            const SIZES: [usize; 17] = [1, 2, 3, 4, 7, 8, 9, 16, 31, 64, 255, 256, 257, 1024, 1025, 4097, 65537];
+            let mut rmss: Vec<_> = SIZES.iter().map(|n| Rms::<[f32; 1], _>::new(ring_buffer::Fixed::from(vec![[0.0f32; 1]; *n]))).collect();
+            let mut sincs: Vec<_> = SIZES.iter().filter(|n| **n <= 1025).map(|n| Sinc::new(ring_buffer::Fixed::from(vec![[0.0f32; 1]; 2 * *n]))).collect();
+            let mut bnds: Vec<_> = SIZES.iter().map(|n| ring_buffer::Bounded::from(vec![0i32; *n])).collect();
+            let mut fxds: Vec<_> = SIZES.iter().map(|n| ring_buffer::Fixed::from(vec![0i32; *n])).collect();
+            let mut bufd: Vec<_> = SIZES
+                .iter()
+                .map(|n| {
+                    let mut c = 0u32;
+                    signal::gen_mut(move || {
+                        c = c.wrapping_add(1);
+                        [c as f32]
+                    })
+                    .buffered(ring_buffer::Bounded::from(vec![[0.0f32; 1]; *n]))
+                })
+                .collect();
+            let mut forks: Vec<_> = SIZES
+                .iter()
+                .map(|n| {
+                    let mut c = 0u32;
+                    signal::gen_mut(move || {
+                        c = c.wrapping_add(3);
+                        [c as f32]
+                    })
+                    .fork(ring_buffer::Bounded::from(vec![[0.0f32; 1]; *n]))
+                })
+                .collect();
+            let mut delays: Vec<_> = SIZES.iter().map(|n| signal::gen(|| [0.25f32]).delay(*n)).collect();
+            let mut wins: Vec<_> = SIZES.iter().map(|n| dasp_signal::window::hann::<[f32; 1]>(*n)).collect();
+            let frames: Vec<[f32; 1]> = (0..70000).map(|i| [(i % 100) as f32 / 100.0]).collect();
+            let mut envs: Vec<_> = SIZES.iter().map(|n| envelope::Detector::<[f32; 1], _>::rms(ring_buffer::Fixed::from(vec![[0.0f32; 1]; *n]), *n as f32, 2.0 * *n as f32)).collect();
+            measure(k.min(20000), |i| {
+                let x = r.f() as f32;
+                for (j, n) in SIZES.iter().enumerate() {
+                    black_box(rmss[j].next([x]));
+                    black_box(envs[j].next([x]));
+                    black_box(bnds[j].push(i as i32));
+                    if i % 3 == 0 {
+                        black_box(bnds[j].pop());
+                    }
+                    black_box(fxds[j].push(i as i32));
+                    black_box((bufd[j].next(), delays[j].next(), wins[j].next()));
+                    {
+                        let (mut a, mut b) = forks[j].by_ref();
+                        let m = 1 + i % 3;
+                        for _ in 0..m {
+                            black_box(a.next());
+                        }
+                        for _ in 0..m {
+                            black_box(b.next());
+                        }
+                    }
+                    if i % 64 == j {
+                        bnds[j].extend(0..(*n as i32 + 3));
+                        fxds[j].extend(0..(*n as i32 + 3));
+                        black_box(bnds[j].drain().count());
+                        rmss[j].reset();
+                        let mut w = Windower::hann(&frames[..], *n, *n);
+                        black_box(w.size_hint());
+                        if let Some(chunk) = w.next() {
+                            black_box(chunk.take(3).count());
+                        }
+                        black_box(w.next().is_some());
+                    }
+                }
+                for (j, si) in sincs.iter_mut().enumerate() {
+                    si.next_source_frame([x]);
+                    if i % 16 == j {
+                        black_box(si.interpolate((i % 7) as f64 / 7.0));
+                    }
+                }
+            })
         }
         _ => vec![-1],
     }
